@@ -14,7 +14,7 @@ reader may deliver more than MinRead bytes per call: what it delivers then depen
   ops:   `write <bytes>` `writestr <bytes>` `writebyte <hh>` `writerune <int>` `read <k>` `readbyte` `readrune`
          `unreadbyte` `unreadrune` `next <n>` `truncate <n>` `reset` `grow <n>`
          `readfrom <bytes> eof|err|neg|over[+] <tail> <chunk>*` (`+` = greedy after the chunks; chunk ::= k | k*n, `0*100` = 100 empty reads) `writeto all|over|short|err [k]`
-         `len` `bytes` `string` `cap` `off` `rewrite <pos> <bytes>` `memprobe <n>`
+         `len` `bytes` `string` `cap` `off` `rewrite <pos> <bytes>` `rewriteself <pos> <from> <to>` `memprobe <n>` `big <a> <n> <r>`
   <bytes> ::= `-` | hex | `x<a>:<n>` (n bytes (a + 13 i) mod 256)
 Byte strings longer than 24 are printed as `#<len>:<fnv1a-64>`.
 -/
@@ -54,6 +54,13 @@ def fnv (d : Bytes) : UInt64 := d.foldl (fun h b => (h ^^^ b.toUInt64) * 0x10000
 
 def hex64 (x : UInt64) : String :=
   String.ofList ((List.range 16).map (fun i => hexDigit ((x.toNat >>> (4 * (15 - i))) % 16)))
+
+/-- FNV-1a over the pattern bytes `(a + 13 i) mod 256` for `i` in `[lo, hi)`, streamed (no list) -/
+def patFnv (a lo hi : Nat) (h : UInt64) : UInt64 := Id.run do
+  let mut h := h
+  for i in [lo:hi] do
+    h := (h ^^^ (UInt8.ofNat ((a + 13 * i) % 256)).toUInt64) * 0x100000001b3
+  return h
 
 def showBytes (d : Bytes) : String :=
   if d.isEmpty then "-"
@@ -192,6 +199,30 @@ def step (o : O) (l : String) : O × String :=
     else match parseNat? n with
     | some n => (o, if n > allocLimit then "T too-large ## B too-large" else "{T ok ## B ok|T fatal ## B fatal}")
     | none => (o, "bad-op")
+  | ["big", a, n, r] =>
+    -- one payload far above what the list model can hold in memory: on FRESH buffers `Write(pat a n); Next(r); Write(pat (a+1) n)`.
+    -- Answered from the abstract buffer on (length, digest) — the contents `pat a n [r:] ++ pat (a+1) n` are streamed, never built.
+    if !o.started then (o, "bad-op")
+    else match parseNat? a, parseNat? n, parseNat? r with
+    | some a, some n, some r =>
+      if n > 67108864 ∨ r > n then (o, "bad-op")
+      else
+        let h := patFnv (a + 1) 0 n (patFnv a r n 0xcbf29ce484222325)
+        let half := s!"n={n},{n} next={r} len={2 * n - r} h={hex64 h}"
+        (o, s!"T {half} ## B {half}")
+    | _, _, _ => (o, "bad-op")
+  | ["rewriteself", pos, f, t] =>
+    -- `ReWrite(pos, b.Bytes()[f:t])` (bounds clamped to the unread length): the payload aliases the storage; `copy` is memmove,
+    -- i.e. the bytes written are the OLD values — exactly `rewrite` with the payload read off the current state
+    if !o.started then (o, "bad-op")
+    else match parseInt? pos, parseNat? f, parseNat? t with
+    | some pos, some f, some t =>
+      let d := o.impl.data
+      let f' := min f d.length
+      let t' := min (max t f') d.length
+      let (ti, to) := C11.step Nv.Gen.C11.cfg o.impl (.rewrite pos ((d.drop f').take (t' - f')))
+      (⟨ti, o.spec, o.taint, true, true⟩, line ti to "*")
+    | _, _, _ => (o, "bad-op")
   | ws =>
     if !o.started then (o, "bad-op")
     else match parseOp ws with
